@@ -602,7 +602,7 @@ func c14Key(w *c14World, obs []string) string {
 			extra = append(extra, x)
 		}
 	}
-	c := h.Canon([]string{"e1", "e2", "e3", "e4"}, []string{"A", "A2", "B", "C", "P", "P2", "X", "X2", "J"}, strings.Join(extra, "\n"))
+	c := h.Canon([]string{"e1", "e2", "e3", "e4"}, []string{"A", "A2", "B", "C", "P", "P2", "X", "X2", "J"}, strings.Join(extra, "\n")+"\n"+h.CatalogueDigest())
 	sum := sha1.Sum([]byte(c))
 	return hex.EncodeToString(sum[:])
 }
